@@ -40,6 +40,11 @@ structure Kdf where
   text : List Char := []
   deriving DecidableEq, Repr
 
+/-- the import is refused with error `e` -/
+def refused (e : PwErr) : Except PwErr Kdf := .error e
+/-- the import is stored as `k` -/
+def stored (k : Kdf) : Except PwErr Kdf := .ok k
+
 /-! ## strings -/
 
 /-- `str::strip_prefix` -/
